@@ -85,6 +85,76 @@ def run(tier):
             rep.broken_obligation("correspondence/family", "model %r vs code %r on family %s depth %d" % ((model[j] or "")[:150], (impl[j] or "")[:150], fams[i][0], fams[i][1]), False)
         rep.note_cases(len(lines), set("%s-%d" % (nm, n) for nm, n, _ in fams), sample={"family": fams[20][0], "depth": fams[20][1]})
 
+        # the same bound with a reader registry and each default reader mode (8 = registry, +2 unwrap, +4 error): tags with
+        # and without a handler around and inside collections
+        ofam = {
+            "unknown-tag-in-vec": lambda n: b"[#x 1 " * n + b"]" * n,
+            "known-tag-in-vec": lambda n: b"[#id 1 " * n + b"]" * n,
+            "unknown-tag-chain": lambda n: b"#x " * n + b"1",
+            "known-tag-chain": lambda n: b"#id " * n + b"1",
+            "tagged-vectors": lambda n: b"#x [" * n + b"]" * n,
+            "known-tagged-vectors": lambda n: b"#id [" * n + b"]" * n,
+            "flat-unknown-tags": lambda n: b"[" + b"#x 1 " * min(n, 5000) + b"]",
+            "flat-known-tags": lambda n: b"[" + b"#id 1 " * min(n, 5000) + b"]",
+        }
+        odocs = [(nm, n, f(n)) for nm, f in ofam.items() for n in (1, 50, 99, 100, 101, 150, 1000, 20000)]
+        for opt in (8, 10, 12):
+            ol = K.read_lines([d for _, _, d in odocs], opt)
+            for mode in ("o2", "san"):
+                impl, crashes = K.run_impl(cfg, ol, mode=mode, stack_kb=(1024 if mode != "san" else 8192), cpu_s=60, nchunks=8)
+                rep.count("option-families/%s-%s-opt%d" % (cfg, mode, opt), len(ol))
+                for idx, rc, err in crashes:
+                    found = True
+                    nm, n, d = odocs[idx]
+                    rep.finding("stack-or-hang/" + nm, "family %s at depth %d with options %d: process died (rc %s) under a 1 MiB stack / CPU limit" % (nm, n, opt, rc),
+                                {"kind": "family", "config": cfg, "mode": mode, "opt": opt, "family": nm, "depth": n, "input_hex": C.hexs(d) if len(d) < 4000 else None, "stderr": err[:1500]})
+            mo, _ = K.run_model(cfg, [l for l, (nm, n, d) in zip(ol, odocs) if n <= 1000])
+            io = [a for a, (nm, n, d) in zip(impl, odocs) if n <= 1000]
+            for j, (a, b) in enumerate(zip(io, mo)):
+                if a is not None and a != b:
+                    rep.broken_obligation("correspondence/option-family", "model %r vs code %r (options %d)" % ((b or "")[:150], a[:150], opt), False)
+                    break
+            # the nesting limit is the same whatever the options: flat documents are accepted, the deep ones rejected
+            for (nm, n, d), a in zip(odocs, impl):
+                if a is None:
+                    continue
+                flat = nm.startswith("flat")
+                if flat and not (a.startswith("ok ") or a.startswith("err UNKNOWN_TAG")):
+                    found = True
+                    rep.finding("limit/flat-document-rejected", "a flat document of %d tagged elements was rejected with options %d: %s" % (min(n, 5000), opt, a[:80]),
+                                {"kind": "family", "config": cfg, "mode": "san", "opt": opt, "family": nm, "depth": n, "input_hex": C.hexs(d) if len(d) < 4000 else None})
+                if not flat and n >= 150 and a.startswith("ok "):
+                    found = True
+                    rep.finding("limit/not-enforced", "nesting of depth %d accepted with options %d (family %s)" % (n, opt, nm),
+                                {"kind": "family", "config": cfg, "mode": "san", "opt": opt, "family": nm, "depth": n, "input_hex": C.hexs(d) if len(d) < 4000 else None})
+        rep.note_cases(3 * len(odocs), set("%s-%d" % (nm, n) for nm, n, _ in odocs))
+
+        # every byte value where a form may start, with more than one vector block of input after it, under an address-space
+        # limit: a short document must not make the reader consume memory or time without bound
+        bdocs = []
+        for b in range(256):
+            for pre, suf in ((b"[", b" 1 2 3 4 5 6 7 8 9 10]"), (b"[1 ", b" 2 3 4 5 6 7 8 9 10 11 12]"), (b"{:k ", b" :a 1 :b 2 :c 3 :d 4}"), (b"#", b" 1 2 3 4 5 6 7 8 9 10 11"),
+                             (b"[#", b" 1 2 3 4 5 6 7 8 9 10]"), (b"", b" 1 2 3 4 5 6 7 8 9 10 11 12")):
+                bdocs.append(pre + bytes([b]) + suf)
+        t0c = resource.getrusage(resource.RUSAGE_CHILDREN)
+        bo, bcr = K.run_impl(cfg, K.read_lines(bdocs), mode="o2", cpu_s=120, as_mb=1024, nchunks=16)
+        t1c = resource.getrusage(resource.RUSAGE_CHILDREN)
+        rep.count("byte-contexts-long-tail/" + cfg, len(bdocs))
+        for idx, rc, err in bcr:
+            found = True
+            rep.finding("resource/byte-context", "a %d-byte document made the reader die under a 1 GiB address-space / CPU limit (rc %s)" % (len(bdocs[idx]), rc),
+                        {"kind": "read", "config": cfg, "mode": "o2", "input_hex": C.hexs(bdocs[idx]), "stderr": err[:800]})
+        for d, a in zip(bdocs, bo):
+            if a is not None and a.startswith("err OUT_OF_MEMORY"):
+                found = True
+                rep.finding("resource/unbounded-memory", "a %d-byte document exhausted a 1 GiB address space" % len(d), {"kind": "read", "config": cfg, "mode": "o2", "input_hex": C.hexs(d)})
+        cpu = (t1c.ru_utime + t1c.ru_stime) - (t0c.ru_utime + t0c.ru_stime)
+        rep.coverage.setdefault("timings", {})["%s/byte-contexts-cpu-seconds" % cfg] = round(cpu, 2)
+        if cpu > 60:
+            found = True
+            rep.finding("resource/unbounded-time", "%d documents of about 30 bytes took %.1f CPU seconds" % (len(bdocs), cpu), {"kind": "timing", "config": cfg, "family": "byte-contexts", "times": cpu})
+        rep.note_cases(len(bdocs), set(bdocs))
+
         # time growth: doubling the input must not more than ~quadruple the time (with slack)
         for name in ("vector", "strings", "comment-lines", "discard-run", "wide-set", "wide-map"):
             times = []
